@@ -1354,7 +1354,12 @@ mod expression_parser {
                 .collect_vec();
               // `(a, )`: a one-element cover is a parenthesized expression, not a tuple.
               if tuple_elements.len() == 1 {
-                return tuple_elements.pop().unwrap();
+                return super::utils::unwrap_parenthesized_expression(
+                  parser,
+                  associated_comments,
+                  tuple_elements.pop().unwrap(),
+                  comments_before_rparen,
+                );
               }
               if let Some(node) = tuple_elements.get(MAX_STRUCT_SIZE) {
                 parser.error_set.report_invalid_syntax_error(
@@ -1414,13 +1419,18 @@ mod expression_parser {
                 body: Box::new(body),
               });
             } else {
-              return expr::E::LocalId(
-                expr::ExpressionCommon {
-                  loc: start_id.loc,
-                  associated_comments: NO_COMMENT_REFERENCE,
-                  type_: (),
-                },
-                start_id,
+              return super::utils::unwrap_parenthesized_expression(
+                parser,
+                associated_comments,
+                expr::E::LocalId(
+                  expr::ExpressionCommon {
+                    loc: start_id.loc,
+                    associated_comments: NO_COMMENT_REFERENCE,
+                    type_: (),
+                  },
+                  start_id,
+                ),
+                ending_comments,
               );
             }
           }
@@ -1444,8 +1454,14 @@ mod expression_parser {
                 expressions,
               );
             } else {
-              let _ = parser.assert_and_consume_operator(TokenOp::RightParenthesis);
-              return first_expr;
+              let (_, ending_comments) =
+                parser.assert_and_consume_operator(TokenOp::RightParenthesis);
+              return super::utils::unwrap_parenthesized_expression(
+                parser,
+                associated_comments,
+                first_expr,
+                ending_comments,
+              );
             }
           }
         }
@@ -1456,7 +1472,16 @@ mod expression_parser {
         MAX_STRUCT_SIZE,
       );
       if expressions_list.expressions.len() == 1 {
-        return expressions_list.expressions.pop().unwrap();
+        let leading_comments =
+          super::utils::take_comments(parser, expressions_list.start_associated_comments);
+        let trailing_comments =
+          super::utils::take_comments(parser, expressions_list.ending_associated_comments);
+        return super::utils::unwrap_parenthesized_expression(
+          parser,
+          leading_comments,
+          expressions_list.expressions.pop().unwrap(),
+          trailing_comments,
+        );
       }
       return expr::E::Tuple(
         expr::ExpressionCommon {
@@ -1657,7 +1682,12 @@ mod expression_parser {
     let (end_loc, end_comments) = parser.assert_and_consume_operator(TokenOp::RightParenthesis);
     // `(e, )`: a one-element list is a parenthesized expression, not a tuple.
     if expressions.len() == 1 {
-      return expressions.pop().unwrap();
+      return super::utils::unwrap_parenthesized_expression(
+        parser,
+        start_comments,
+        expressions.pop().unwrap(),
+        end_comments,
+      );
     }
     let loc = start_loc.union(&end_loc);
     expr::E::Tuple(
@@ -2201,7 +2231,36 @@ mod type_parser {
 }
 
 mod utils {
-  use samlang_ast::source::{Comment, CommentReference, CommentsNode};
+  use samlang_ast::source::{Comment, CommentReference, CommentsNode, expr};
+
+  pub(super) fn take_comments(
+    parser: &mut super::SourceParser,
+    reference: CommentReference,
+  ) -> Vec<Comment> {
+    match parser.comments_store.get_mut(reference) {
+      CommentsNode::NoComment => Vec::new(),
+      CommentsNode::Comments(comments) => std::mem::take(comments),
+    }
+  }
+
+  /// Parentheses around a single expression are not part of the syntax tree: the comments written
+  /// after `(` go in front of the inner expression, the ones before `)` are handed to the next token.
+  pub(super) fn unwrap_parenthesized_expression(
+    parser: &mut super::SourceParser,
+    leading_comments: Vec<Comment>,
+    mut inner: expr::E<()>,
+    mut trailing_comments: Vec<Comment>,
+  ) -> expr::E<()> {
+    let common = inner.common_mut();
+    common.associated_comments = mod_associated_comments_with_additional_preceding_comments(
+      parser,
+      common.associated_comments,
+      leading_comments,
+    );
+    trailing_comments.append(&mut parser.pending_comments);
+    parser.pending_comments = trailing_comments;
+    inner
+  }
 
   pub(super) fn mod_associated_comments_with_additional_preceding_comments(
     parser: &mut super::SourceParser,
